@@ -240,3 +240,134 @@ func VF_C16_a_crash() {
 	vf.Assert(err == ErrNoWalEntry, "C16.a.crash")
 	vf.Observe("last", last)
 }
+
+// ---- C16.b: hard state, snapshot, identity, ResetWAL, ClearWAL read back what was written, across a restart ---------
+
+func vfLogGone(cdb *ChainDB, old []vfWalItem, ob string) {
+	for i := range old {
+		_, err := cdb.GetRaftEntry(uint64(i + 1))
+		vf.Assert(err == ErrNoWalEntry, ob)
+	}
+}
+
+func VF_C16_b() {
+	op := vf.Choice("op", 5)
+	kv := vf.NewKV()
+	cdb := vfCdb(kv)
+	switch op {
+	case 0: // hard state
+		_, err := cdb.GetHardState()
+		vf.Assert(err == ErrWalNoHardState, "C16.b.hardstate")
+		hs := &raftpb.HardState{Term: vf.U64("term"), Vote: vf.U64("vote"), Commit: vf.U64("commit")}
+		vf.Assert(cdb.WriteHardState(hs) == nil, "C16.b.hardstate")
+		hs2 := &raftpb.HardState{Term: vf.U64("term"), Vote: vf.U64("vote"), Commit: vf.U64("commit")}
+		vf.Assert(cdb.WriteHardState(hs2) == nil, "C16.b.hardstate") // overwrite: the latest one is read back
+		got, err := vfCdb(kv.Reopen()).GetHardState()
+		vf.Reach("C16.b")
+		vf.Assert(err == nil, "C16.b.hardstate")
+		if err == nil {
+			vf.Assert(vf.And(got.Term == hs2.Term, vf.And(got.Vote == hs2.Vote, got.Commit == hs2.Commit)), "C16.b.hardstate")
+		}
+	case 1: // identity
+		id0, err := cdb.GetIdentity()
+		vf.Assert(vf.And(id0 == nil, err == nil), "C16.b.identity")
+		id := &consensus.RaftIdentity{ClusterID: vf.U64("cluster"), ID: vf.U64("id"), Name: vf.Str("name", 2), PeerID: vf.Str("peer", 3)}
+		vf.Assert(cdb.WriteIdentity(id) == nil, "C16.b.identity")
+		cdb2 := vfCdb(kv.Reopen())
+		got, err := cdb2.GetIdentity()
+		vf.Reach("C16.b")
+		vf.Assert(err == nil, "C16.b.identity")
+		if err == nil && got != nil {
+			vf.Assert(vf.And(vf.And(got.ClusterID == id.ClusterID, got.ID == id.ID), vf.And(got.Name == id.Name, got.PeerID == id.PeerID)), "C16.b.identity")
+		} else {
+			vf.Fail("C16.b.identity")
+		}
+		// HasWal: same identity + hard state present
+		ok, err := cdb2.HasWal(*id)
+		vf.Assert(vf.And(!ok, err == ErrWalNoHardState), "C16.b.haswal")
+		cdb2.WriteHardState(&raftpb.HardState{Term: 1})
+		ok, err = cdb2.HasWal(*id)
+		vf.Assert(vf.And(ok, err == nil), "C16.b.haswal")
+		other := *id
+		other.Name = vf.Str("othername", 2)
+		ok, err = cdb2.HasWal(other)
+		vf.Assert(ok == (other.Name == id.Name), "C16.b.haswal")
+	case 2: // snapshot
+		s0, err := cdb.GetSnapshot()
+		vf.Assert(vf.And(s0 == nil, err == nil), "C16.b.snapshot")
+		sd := &consensus.SnapshotData{Chain: consensus.ChainSnapshot{No: vf.U64("snapNo"), Hash: vf.Bytes("snapHash", vfHashLen)}}
+		data, err := sd.Encode()
+		vf.Assert(err == nil, "C16.b.snapshot")
+		snap := &raftpb.Snapshot{Data: data, Metadata: raftpb.SnapshotMetadata{Index: vf.U64("snapIndex"), Term: vf.U64("snapTerm")}}
+		vf.Assert(cdb.WriteSnapshot(snap) == nil, "C16.b.snapshot")
+		got, err := vfCdb(kv.Reopen()).GetSnapshot()
+		vf.Reach("C16.b")
+		vf.Assert(err == nil, "C16.b.snapshot")
+		if err == nil && got != nil {
+			vf.Assert(vf.And(got.Metadata.Index == snap.Metadata.Index, got.Metadata.Term == snap.Metadata.Term), "C16.b.snapshot")
+			var sd2 consensus.SnapshotData
+			vf.Assert(sd2.Decode(got.Data) == nil, "C16.b.snapshot")
+			vf.Assert(sd2.Chain.Equal(&sd.Chain), "C16.b.snapshot")
+		} else {
+			vf.Fail("C16.b.snapshot")
+		}
+	case 3, 4: // ClearWAL / ResetWAL on a store holding a log of L entries, identity, hard state and snapshot
+		L := vf.Choice("L", vf.Param("maxL", 2)+1)
+		var hashes [][]byte
+		old := make([]vfWalItem, L)
+		for i := 0; i < L; i++ {
+			kind := consensus.EntryEmpty
+			if i%2 == 0 {
+				kind = consensus.EntryBlock
+			}
+			old[i] = vfWalEntry(kind, uint64(i+1), &hashes)
+		}
+		vfStoreLog(kv, old)
+		cdb.WriteIdentity(&consensus.RaftIdentity{ClusterID: 1, ID: 2, Name: "n1", PeerID: "p1"})
+		cdb.WriteHardState(&raftpb.HardState{Term: 3, Vote: 2, Commit: uint64(L)})
+		best := &types.Block{Hash: vf.Bytes("bestHash", vfHashLen), Header: &types.BlockHeader{BlockNo: vf.U64("bestNo")}, Body: &types.BlockBody{}}
+		cdb.bestBlock.Store(best)
+		if op == 3 {
+			cdb.ClearWAL()
+			c2 := vfCdb(kv.Reopen())
+			vf.Reach("C16.b")
+			id, err := c2.GetIdentity()
+			vf.Assert(vf.And(id == nil, err == nil), "C16.b.clear")
+			_, err = c2.GetHardState()
+			vf.Assert(err == ErrWalNoHardState, "C16.b.clear")
+			sn, err := c2.GetSnapshot()
+			vf.Assert(vf.And(sn == nil, err == nil), "C16.b.clear")
+			last, err := c2.GetRaftEntryLastIdx()
+			vf.Assert(vf.And(last == 0, err == nil), "C16.b.clear")
+			vfLogGone(c2, old, "C16.b.clear")
+			return
+		}
+		hsi := &types.HardStateInfo{Term: vf.U64("rterm"), Commit: vf.U64("rcommit")}
+		vf.Assert(cdb.ResetWAL(nil) == ErrNilHardState, "C16.b.reset")
+		vf.Assert(cdb.ResetWAL(hsi) == nil, "C16.b.reset")
+		c2 := vfCdb(kv.Reopen())
+		vf.Reach("C16.b")
+		hs, err := c2.GetHardState()
+		vf.Assert(err == nil, "C16.b.reset")
+		if err == nil {
+			vf.Assert(vf.And(hs.Term == hsi.Term, hs.Commit == hsi.Commit), "C16.b.reset")
+		}
+		last, err := c2.GetRaftEntryLastIdx()
+		vf.Assert(vf.And(last == hsi.Commit, err == nil), "C16.b.reset") // the log continues after the commit index
+		sn, err := c2.GetSnapshot()
+		vf.Assert(err == nil, "C16.b.reset")
+		if err == nil && sn != nil {
+			vf.Assert(vf.And(sn.Metadata.Index == hsi.Commit, sn.Metadata.Term == hsi.Term), "C16.b.reset")
+			var sd consensus.SnapshotData
+			vf.Assert(sd.Decode(sn.Data) == nil, "C16.b.reset")
+			vf.Assert(vf.And(sd.Chain.No == best.Header.BlockNo, bytes.Equal(sd.Chain.Hash, best.Hash)), "C16.b.reset")
+		} else {
+			vf.Fail("C16.b.reset")
+		}
+		// old entries are gone unless the new last index makes the index valid again: no stale entry is served
+		for i := range old {
+			_, err := c2.GetRaftEntry(uint64(i + 1))
+			vf.Assert(err == ErrNoWalEntry, "C16.b.reset")
+		}
+	}
+}
